@@ -122,10 +122,105 @@ Proof.
   - (* run: callback *)
     assert (Hnt : In n0 (pending (tag (fth s t)))) by (rewrite Heql; now left).
     destruct (f_p1 nown _ HG t n0 Hnt) as [Hnz Hown].
-    cbn [node_run fire_evs app]. destruct (Nat.eqb n0 n) eqn:E.
-    + apply Nat.eqb_eq in E. subst n0. unfold freg at 1. destruct (ftarget s n =? 0) eqn:Z; [n2p; contradiction|].
-      rewrite Hown, Nat.eqb_refl. unfold freg. cbn. rewrite upd_same. reflexivity.
-    + apply Nat.eqb_neq in E. unfold freg. cbn. rewrite upd_other by (intros ->; now apply E). reflexivity.
+    destruct (Nat.eq_dec n0 n) as [En|En].
+    + subst n0.
+      assert (Hreg : freg s n = Some t).
+      { unfold freg. destruct (ftarget s n =? 0) eqn:Z; [n2p; contradiction|assumption]. }
+      rewrite Hreg. cbn [node_run fire_evs app].
+      repeat (rewrite Nat.eqb_refl; cbn [node_run]).
+      unfold freg. cbn. rewrite upd_same. reflexivity.
+    + pose proof En as En'. apply Nat.eqb_neq in En'. cbn [node_run fire_evs app]. rewrite !En'.
+      unfold freg. cbn. rewrite upd_other by (intros ->; now apply En). reflexivity.
+Qed.
+
+(* ---- the system stops only where a documented precondition is violated (or D07) ---- *)
+Theorem fg_stops t s s' evs op st :
+  FCore U nown s -> FGhost nown s -> fstop s = None -> fstep t s = (s', evs, op) -> fstop s' = Some st ->
+  exists l, st = StopAssert t l /\ In l [102; 124; 127; 151; 214].
+Proof.
+  intros HC HG Hstop H Hst.
+  fstep_inv H Hstop; cbn in Hst; try congruence; inversion Hst; subst st; clear Hst.
+  all: try (eexists; split; [reflexivity|cbn; tauto]).
+  all: try solve [ exfalso;
+    match goal with Ep : tpc (fth ?s0 ?t0) = _ |- _ =>
+      assert (Hh : holds (fth s0 t0) = true) by (unfold holds; now rewrite Ep);
+      apply (f_hold _ _ _ HC t0) in Hh end;
+    match goal with
+    | E : fmx _ = None |- _ => congruence
+    | E : fmx _ = Some ?h, E2 : (?h =? _)%nat = false |- _ =>
+        rewrite E in Hh; inversion Hh; subst; rewrite Nat.eqb_refl in E2; discriminate
+    end ].
+  - (* 114: the first agent finds agents_to_ack = 0 *)
+    exfalso. assert (R : restarter (fth s t) = true) by (unfold restarter; rewrite Epc; apply orb_true_r).
+    assert (Sp : special (fth s t) = false) by (unfold special; now rewrite Epc).
+    pose proof (f_r2 _ _ _ HC t R Sp) as T0. n2p. contradiction.
+  - (* 137 *)
+    exfalso. pose proof (f_loc _ _ _ HC t) as [_ L]. rewrite Epc in L. destruct L as [La Ld].
+    assert (Hh : holds (fth s t) = true) by (unfold holds; now rewrite Epc).
+    assert (Hmx : fmx s = Some t) by (apply (f_hold _ _ _ HC t); exact Hh).
+    assert (Hv : vctr s = ctr (fd s)) by (unfold vctr; rewrite Hmx; unfold special; now rewrite Epc).
+    assert (M : memb (fth s t) = true).
+    { unfold memb. rewrite Epc. destruct (acked (tag (fth s t)) =? 0) eqn:Z; [n2p; contradiction|reflexivity]. }
+    destruct (f_j1 _ _ _ HC t M) as [E|E]; unfold eack in E; rewrite Epc, Hv in E; n2p; contradiction.
+  - (* 154 *)
+    exfalso. pose proof (f_loc _ _ _ HC t) as [_ L]. rewrite Epc in L. destruct L as [La Ld].
+    destruct (f_j4 _ _ _ HC t Ld) as [_ E]. n2p. contradiction.
+  - (* 169 *)
+    exfalso. pose proof (f_loc _ _ _ HC t) as [_ L]. rewrite Epc in L. destruct L as [La Ld].
+    assert (M : memb (fth s t) = true).
+    { unfold memb. rewrite Epc. destruct (acked (tag (fth s t)) =? 0) eqn:Z; [n2p; contradiction|reflexivity]. }
+    pose proof (f_le _ _ _ HC t M) as Le. unfold eack in Le. rewrite Epc in Le.
+    destruct (f_j1 _ _ _ HC t M) as [E|E]; unfold eack in E; rewrite Epc in E;
+      destruct (vctr_cases U nown s HC) as [[V _]|[V _]]; rewrite V in E; n2p; clear - E Le Heqb Heqb0; lia.
+Qed.
+
+(* ---- absence of deadlock ---- *)
+Definition lock_pc (p : pc) : bool := match p with POn0 | POff0 | PQd3 | PQ4 _ => true | _ => false end.
+
+(* thread t has something to do and is not waiting for the mutex *)
+Definition can_move (s : fstate) (t : tid) : Prop :=
+  (tpc (fth s t) <> PIdle \/ tscript (fth s t) <> []) /\ (lock_pc (tpc (fth s t)) = true -> fmx s = None).
+
+Lemma fstep_moves t s s' evs op :
+  fstop s = None -> can_move s t -> fstep t s = (s', evs, op) -> s' <> s.
+Proof.
+  intros Hstop [Hbusy Hlock] H.
+  fstep_inv H Hstop.
+  all: try (intros E; apply (f_equal fstop) in E; cbn in E; congruence).
+  all: try (exfalso; destruct Hbusy as [B|B]; congruence).
+  all: try (exfalso; rewrite ?Epc in Hlock; cbn in Hlock; specialize (Hlock eq_refl); congruence).
+  all: intros E; apply (f_equal (fun z => fth z t)) in E; cbn in E;
+    first [rewrite upd_same in E | (unfold upd in E; rewrite Nat.eqb_refl in E) | idtac].
+  all: try (apply (f_equal tpc) in E; revert E; split_ret; cbn; rewrite Epc; discriminate).
+  - (* PIdle: the script gets shorter *)
+    apply (f_equal (fun th => length (tscript th))) in E.
+    revert E. cbn. rewrite Heql. cbn. clear. intros E. induction (length l); [discriminate|]. injection E. auto.
+  - apply (f_equal tpc) in E. cbn in E. rewrite Epc in E. inversion E. n2p. congruence.
+  - apply (f_equal (fun th => length (pending (tag th)))) in E.
+    revert E. cbn. rewrite Heql. cbn. clear. intros E. induction (length l); [discriminate|]. injection E. auto.
+  - apply (f_equal tpc) in E. cbn in E. rewrite Epc in E.
+    revert E. destruct (desired (fd s) <? tg); intros E; inversion E. n2p. congruence.
+Qed.
+
+Theorem fg_no_deadlock s :
+  FCore U nown s -> fstop s = None ->
+  (exists t, tpc (fth s t) <> PIdle \/ tscript (fth s t) <> []) ->
+  exists t', fst (fst (fstep t' s)) <> s.
+Proof.
+  intros HC Hstop [t Hbusy].
+  assert (Hmv : forall x, can_move s x -> fst (fst (fstep x s)) <> s).
+  { intros x Hx. destruct (fstep x s) as [[s1 e1] o1] eqn:E. cbn. apply (fstep_moves x s s1 e1 o1 Hstop Hx E). }
+  destruct (fmx s) as [h|] eqn:Hm.
+  - exists h. apply Hmv. pose proof (proj2 (f_hold _ _ _ HC h) Hm) as Hh. unfold holds in Hh. split.
+    + left. intros E. rewrite E in Hh. discriminate.
+    + intros L. exfalso. unfold lock_pc in L. destruct (tpc (fth s h)); discriminate.
+  - exists t. apply Hmv. split; [assumption|auto].
+Qed.
+
+(* a thread that is between calls does not hold the mutex: every call releases it on every path *)
+Theorem fg_mutex_released s t : FCore U nown s -> tpc (fth s t) = PIdle -> fmx s <> Some t.
+Proof.
+  intros HC E Hm. apply (f_hold _ _ _ HC t) in Hm. unfold holds in Hm. rewrite E in Hm. discriminate.
 Qed.
 
 End Thms.
